@@ -23,8 +23,11 @@ enum { CB_NONE = 0, CB_STRICT, CB_PERMISSIVE, CB_FORGIVE_EXPIRED, CB_N };
 static const char *cbname[] = { "no-callback", "strict-callback", "permissive-callback", "callback-forgives-only-expiry" };
 /* X_DEPTH1/2/3: the verifier limits the path length with validateCertsOpts.max_verify_depth; the good chain is leaf + one
  * intermediate under the root, i.e. a path of three certificates: limits 1 and 2 must refuse it, limit 3 must accept it */
-enum { X_CHAIN = 0, X_WRONGKEY, X_NOANCHOR, X_WRONGNAME, X_DEPTH1, X_DEPTH2, X_DEPTH3, X_N };
-static const char *xname[] = { "chain", "wrong-private-key", "no-trust-anchor", "wrong-expected-name", "max-verify-depth-1", "max-verify-depth-2", "max-verify-depth-3" };
+/* X_NOANCHOR_ROOTSENT: the verifier has NO CA certificate loaded at all and the peer's chain ends with its (self-signed) root */
+enum { X_CHAIN = 0, X_WRONGKEY, X_NOANCHOR, X_WRONGNAME, X_DEPTH1, X_DEPTH2, X_DEPTH3, X_NOANCHOR_ROOTSENT, X_N };
+#define IS_NOANCHOR(x) ((x) == X_NOANCHOR || (x) == X_NOANCHOR_ROOTSENT)
+static int g_send_root;
+static const char *xname[] = { "chain", "wrong-private-key", "no-trust-anchor", "wrong-expected-name", "max-verify-depth-1", "max-verify-depth-2", "max-verify-depth-3", "no-ca-loaded-and-peer-sends-its-root" };
 
 typedef struct { int ver, kx, slice; uint16_t suite; const char *name; } m_cfg_t;
 static const m_cfg_t mcfgs[] = {
@@ -113,10 +116,14 @@ static int load_identity(sslKeys_t *keys, int slice, int kleaf, int kint, int wr
     {
         return -100;
     }
-    cl = U[hleaf].derlen + U[hinter].derlen;
+    cl = U[hleaf].derlen + U[hinter].derlen + (g_send_root ? U[u_root[slice][R_MAIN]].derlen : 0);
     chain = h_malloc((size_t) cl);
     memcpy(chain, U[hleaf].der, (size_t) U[hleaf].derlen);
     memcpy(chain + U[hleaf].derlen, U[hinter].der, (size_t) U[hinter].derlen);
+    if (g_send_root)
+    {
+        memcpy(chain + U[hleaf].derlen + U[hinter].derlen, U[u_root[slice][R_MAIN]].der, (size_t) U[u_root[slice][R_MAIN]].derlen);
+    }
     kl = key_der(k, &kd);
     if (kl <= 0)
     {
@@ -184,14 +191,18 @@ static void run_handshake(const c_case_t *c, c_out_t *o)
     /* the authenticated side gets the credential under test; the other side a good one (server always needs an identity) */
     if (authed == 1)
     {
+        g_send_root = c->x == X_NOANCHOR_ROOTSENT;
         rc = load_identity(sk, M->slice, c->kleaf, c->kint, c->x == X_WRONGKEY);
+        g_send_root = 0;
     }
     else
     {
         rc = load_identity(sk, M->slice, K_GOOD, K_GOOD, 0);
         if (rc >= 0)
         {
+            g_send_root = c->x == X_NOANCHOR_ROOTSENT;
             rc = load_identity(ck, M->slice, c->kleaf, c->kint, c->x == X_WRONGKEY);
+            g_send_root = 0;
         }
     }
     o->load_rc = rc;
@@ -200,11 +211,11 @@ static void run_handshake(const c_case_t *c, c_out_t *o)
         goto done;
     }
     /* trust anchors: the verifier gets R unless the case removes it; the client always needs R to accept a good server */
-    if (!(c->x == X_NOANCHOR && c->vrole == 0))
+    if (!(IS_NOANCHOR(c->x) && c->vrole == 0))
     {
         load_anchor(ck, M->slice);
     }
-    if (c->vrole == 1 && c->x != X_NOANCHOR)
+    if (c->vrole == 1 && !IS_NOANCHOR(c->x))
     {
         load_anchor(sk, M->slice);
     }
@@ -301,9 +312,9 @@ static void run_case(void *ctx, mx_result_t *r)
         snprintf(r->outcome, sizeof(r->outcome), "n/a:kind-not-in-slice");
         return;
     }
-    ref_lax(chain, 2, anch, c->x == X_NOANCHOR ? 0 : 1, &lax);
+    ref_lax(chain, 2, anch, IS_NOANCHOR(c->x) ? 0 : 1, &lax);
     pop_bad = c->x == X_WRONGKEY;
-    must_reject = !lax.ok || c->x == X_WRONGNAME || c->x == X_NOANCHOR || c->x == X_DEPTH1 || c->x == X_DEPTH2;
+    must_reject = !lax.ok || c->x == X_WRONGNAME || IS_NOANCHOR(c->x) || c->x == X_DEPTH1 || c->x == X_DEPTH2;
     {
         /* is being outside the validity period the ONLY thing wrong with this credential?  (the same chain with the
            out-of-date certificates replaced by their in-date twins is valid, the name is right, an anchor is loaded) */
@@ -669,6 +680,7 @@ int main(int argc, char **argv)
                         }
                         c.kleaf = ek[e]; c.kint = K_GOOD;
                         c.x = X_NOANCHOR; add_case(c);
+                        c.x = X_NOANCHOR_ROOTSENT; add_case(c);
                         c.x = X_WRONGKEY; add_case(c);
                         if (v == 0)
                         {
